@@ -60,6 +60,16 @@ func newConstrainedHmm(pi Vector, tr Matrix, stateMap []int, edist []ScalarPdf, 
 
 /* -------------------------------------------------------------------------- */
 
+func (obj *Chmm) Clone() *Chmm {
+  return &Chmm{*obj.Hmm.Clone()}
+}
+
+func (obj *Chmm) CloneVectorPdf() VectorPdf {
+  return obj.Clone()
+}
+
+/* -------------------------------------------------------------------------- */
+
 func (obj *Chmm) ImportConfig(config ConfigDistribution, t ScalarType) error {
   hmm  := Hmm{}
   if err := hmm.ImportConfig(config, t); err != nil {
